@@ -835,7 +835,7 @@ class Actor(object):
 
         if len(srcFields) != len(dstFields):
             msg = ("ResolveError: Unequal number of source = {0} and "
-                   "destination = {2} fields".format(srcFields, dstFields))
+                   "destination = {1} fields".format(srcFields, dstFields))
             raise excepting.ResolveError(msg,
                                          self.name,
                                          '',
